@@ -26,6 +26,7 @@ def run(ctx):
                          "scheduler validated by the Level-A monitors; distinct_nontrivial = executions (distinct seed / DFS tape each)")
     exe = build.harness("batch", ["batch.cc"], "shim")
     B.model_check_batch(ctx, ["FlushComplete", "ShutdownComplete", "ShutdownOnce", "NoLateCall"], live=True)
+    B.model_vs_monitor(ctx)
     lines, abnormal = B.explore(ctx, exe, B.batch_runs(ctx, focus="C02"))
     B.validate(ctx, "C02", lines, "batch")
     B.report_abnormal(ctx, abnormal, "batch")
